@@ -70,6 +70,7 @@ func main() {
 	hx.InitIO()
 	run := evid.NewRun(prop, tier, seed, c.level)
 	mon.CurrentRun = run
+	mon.InstallObserveHook(run)
 	c.fn(run)
 	os.Exit(run.Finish())
 }
